@@ -115,7 +115,9 @@ CLAIMED.update({
             '(placeholder or scored trees) and its step count do not depend on anything the call did before '
             '(lazy_history_independent), a call is map-solo (batch_eq_map_solo), and depccg.parsing.run with any chunk size / '
             'number of processes returns one result per sentence in order, each equal to parsing it alone '
-            '(parsing_run_eq_map_solo). The real depccg.parsing.run (translated glue + real C++ + real '
+            '(parsing_run_eq_map_solo); for the program as a whole (Cli.mainText, compared character by character with the real '
+            'command line) the printed text is the records of each sentence parsed alone and --num-processes is irrelevant '
+            '(main_eq_map_solo, main_procs_irrelevant). The real depccg.parsing.run (translated glue + real C++ + real '
             'multiprocessing.Pool) is compared: alone vs one call vs permuted vs subset vs repeated vs chunked.',
             SEARCH_NOTE + ' process scheduling, pickling and worker crashes are runtime behaviour observed by the correspondence only.',
             'DESIGN.md §4 C11'),
@@ -131,8 +133,9 @@ CLAIMED.update({
             'pass the probability test, stop at the first failure; with the filter off exactly the top pruning_size; every leaf '
             'of a returned parse carries an admitted tag. The numeric test exp(s) > exp(best)*beta is a parameter of the model '
             '(computed by the harness with the same float32 libm expf) - correspondence-only. lazy_leaf_tags_admitted carries it to '
-            'the lazy model of the call.',
-            SEARCH_NOTE, 'DESIGN.md §4 C16'),
+            'the lazy model of the call. The options are also given on the real command line (argparse.py -> __main__.py -> '
+            'parsing.run -> print_ in-process, only the neural tagger replaced): the printed trees must respect the beam as given.',
+            SEARCH_NOTE, 'DESIGN.md §4 C16, §7.2'),
 })
 
 
@@ -146,8 +149,11 @@ CLAIMED.update({
             'grammar-guessed labels), printing it again reproduces the line, the conll last-column fragments concatenate to the '
             'line, and the CCGbank category repair leaves well-formed categories alone. The printers and the cursor reader are '
             'modelled to the character and diffed against auto_of / conll_of / read_auto (files on disk) on 1500 trees per run; '
-            'an independent AUTO reader is the oracle.',
-            TEXT_NOTE, 'DESIGN.md §4 C08'),
+            'an independent AUTO reader is the oracle. File level: what to_string prints for a whole batch is read by read_auto '
+            '(model Read/File.lean incl. str.strip) to one result per tree, in order, each under its sentence\'s ID line '
+            '(auto_file_roundtrip, auto_file_needs_id), and the AUTO text the whole program writes reads back '
+            '(main_auto_reads_back); the header score text is exact (fmt8_roundtrip).',
+            TEXT_NOTE, 'DESIGN.md §4 C08, §7.2'),
     'C15': (T_PROOF,
             'Proved: C&C XML round trip (tree, unary labels, grammar labels, the five token attributes), numbering by sentence; '
             'Jigg XML self-containedness (unique ids document-wide, references resolve, leaf spans tile, spans cover children, '
@@ -179,8 +185,9 @@ CLAIMED.update({
             'PTB line is rejected; Japanese bank round trip (categories, shape, words, rule symbols) for non-empty attribute values '
             '(original statement proved false for an empty inflection value); the bank\'s _suffix / {I1} annotations are '
             'irrelevant. Printers and both readers modelled to the character and diffed against the real code; independent '
-            'S-expression / brace readers as oracle.',
-            TEXT_NOTE, 'DESIGN.md §4 C20'),
+            'S-expression / brace readers as oracle. File level: ptb_file_roundtrip, ja_file_roundtrip, ptb_file_default_name '
+            '(real read_ptb / read_ccgbank on files, incl. words with odd line-break characters).',
+            TEXT_NOTE, 'DESIGN.md §4 C20, §7.2'),
 })
 
 
